@@ -437,7 +437,13 @@ class _EventScope:
 
         def wrapper(*args, **kwargs):
             frame = sys._getframe(1)
-            res = orig(*args, **kwargs)
+            failed = None
+            try:
+                res = orig(*args, **kwargs)
+            except Exception as e:  # noqa
+                if frame.f_code is not scope.code:
+                    raise
+                failed, res = e, None
             if frame.f_code is not scope.code:
                 return res            # event raised from somewhere else than the function under contract
             env = dict(scope.g)
@@ -459,6 +465,10 @@ class _EventScope:
                     pass
             for item in scope.con.on_call[label]:
                 item = item.strip()
+                if failed is not None and (not item.startswith('assert ') and 'result' in item
+                                           or item.startswith('assert ') and any(t in item for t in ('result', 'attr(', 'has_', 'nodes(', 'edge', 'old('))):
+                    # the callee raised: only what is about the ARGUMENTS of the call (and the ghost counters) is evaluated
+                    continue
                 try:
                     if item.startswith('assert '):
                         cl = Clause(item[len('assert '):])
@@ -473,6 +483,8 @@ class _EventScope:
                         env[tgt.strip()] = scope.ghosts[tgt.strip()]
                 except Exception as e:  # noqa: contract text could not be evaluated: never a verdict
                     scope.bad.append(('error', item, '%s: %s' % (type(e).__name__, e)))
+            if failed is not None:
+                raise failed
             return res
         return wrapper
 
